@@ -96,6 +96,11 @@ def anchor_report(mod, cov):
             total = None
         hit = by.get((f, q), set())
         rep[f"{f}:{q}"] = {"lines_hit": len(hit), "lines_total": len(total) if total else None}
+        if not hit and total is None and ".<locals>." in q:
+            # a nested helper of the anchored function that this tree does not have (the function was restructured);
+            # the enclosing function is anchored too and stays mandatory
+            rep[f"{f}:{q}"]["absent_in_this_tree"] = True
+            continue
         if not hit:
             missing.append(f"{f}:{q}")
     return rep, missing
